@@ -16,4 +16,5 @@ for s in tools/*.sh /tmp/combo/run.sh; do sed "s|cd /verif|cd /tmp/verif_snap|" 
 ./refacrun.sh /tmp/fix3facts > $R/rf3.txt 2>&1
 ./refacrun.sh /tmp/refac4facts > $R/rf4.txt 2>&1
 ./refacrun.sh /tmp/fix4facts > $R/rf5.txt 2>&1
+./refacrun.sh /tmp/refac6facts > $R/rf6.txt 2>&1
 echo ALLDONE > $R/done
